@@ -376,6 +376,7 @@ fn small_ops() -> Vec<Step> {
         t(Op::Remove("a".into())),
         t(Op::Inc("a".into(), None)),
         t(Op::Inc("ab".into(), Some(-3))),
+        t(Op::Inc("a".into(), Some(0))),
         t(Op::Get("a".into())),
         t(Op::SetSafe("a".into(), Ver::Rel(0), "s".into())),
         t(Op::Keys("a*".into())),
@@ -397,7 +398,7 @@ fn random_step(r: &mut Rng) -> Step {
         5..=6 => Op::Get(k),
         7 => Op::GetSafe(k),
         8..=9 => Op::Remove(k),
-        10..=12 => Op::Inc(k, *r.pick(&[None, Some(1), Some(-1), Some(5), Some(2147483647), Some(-2147483648)])),
+        10..=12 => Op::Inc(k, *r.pick(&[None, Some(1), Some(-1), Some(5), Some(0), Some(0), Some(2147483647), Some(-2147483648)])),
         13..=14 => Op::Keys(r.pick(&pats).to_string()),
         15 => Op::SetSafe(k, r.pick(&[Ver::Rel(-1), Ver::Rel(0), Ver::Rel(1), Ver::Abs(0), Ver::Abs(1000)]).clone(), r.pick(&values).to_string()),
         16..=17 => return Step { admin: true, op: Op::Snapshot(r.chance(1, 3)) },
